@@ -88,6 +88,11 @@ def generate(rng, tier):
             cases.append([sc.gen_pipeline, sc.gen_relay2, sc.gen_two_relays, sc.gen_shared_equal, sc.gen_pull_ring, sc.gen_lookahead, sc.gen_ring_mixed, sc.gen_relay_twice][(i // 20) % 8](rng))
         else:
             cases.append(sc.gen_ring(rng))
+    # every special family is drawn a fixed number of times (the rotation above reaches each only once or twice)
+    for g in (sc.gen_pipeline, sc.gen_relay2, sc.gen_two_relays, sc.gen_shared_equal, sc.gen_pull_ring, sc.gen_lookahead,
+              sc.gen_ring_mixed, sc.gen_relay_twice, sc.gen_ring_staggered):
+        for _ in range(4 if tier == "quick" else 60):
+            cases.append(g(rng))
     for k, c in enumerate(cases):
         if k >= len(CORPUS) and k % 4 == 1 and "comps" in c:
             c["autostart"] = True      # connect() without a start time (the composition takes the earliest component's)
